@@ -429,6 +429,9 @@ class FD:
                                     v = frozenset(_binop(x["op"][:-1], a, b) for a in cur for b in rv)
                                 except Unknown:
                                     v = None
+                            dom = self.keys[i].domain
+                            if v is not None and dom is not None and not v <= dom:
+                                v = None
                         new.extend(self._assign([s], i, v))
                     states = new
                 else:
@@ -441,6 +444,9 @@ class FD:
                     for s in states:
                         cur = s[i] if s[i] is not None else self.keys[i].domain
                         v = frozenset(c + d for c in cur) if cur is not None else None
+                        dom = self.keys[i].domain
+                        if v is not None and dom is not None and not v <= dom:
+                            v = None
                         new.extend(self._assign([s], i, v))
                     states = new
             elif k == "decl":
